@@ -937,6 +937,10 @@ func main() {
 	if len(os.Args) >= 2 && os.Args[1] == "probe" {
 		config.InitializeTestingConfig(os.TempDir() + "/C06_probe/")
 		config.SetNewQueryPipelineEnabled(true)
+		if os.Getenv("C06_SORTPROBE") != "" {
+			sortProbeMain(os.Args[2:])
+			return
+		}
 		if os.Getenv("C06_STRESS") != "" {
 			stressMain(os.Args[2:])
 			return
@@ -1506,6 +1510,7 @@ func e2eQueries() []e2eQuery {
 		{"* | where v>=0 | rare g", "parallel_top", cmpCounts, ""},
 		// two-pass commands in front of an aggregation: must see the whole input however the
 		// blocks reach the chains
+		{"* | sort 100 lat, id | fillnull value=0 | fields id, lat, opt", "sort_twopass", cmpOrdered, "parallel_sort_then_two_pass_wrong_result"},
 		{"* | bin lat | stats count by lat", "twopass_bin", cmpMultiset, ""},
 		{"* | bin bins=3 lat | sort lat, id | fields id, lat", "twopass_bin", cmpOrdered, ""},
 		{"* | fields id, a, opt, v | fillnull value=0 | stats count by opt", "twopass_fillnull", cmpMultiset, ""},
@@ -1612,7 +1617,7 @@ func runE2E(cfg vhlib.Config, sum *vhlib.Summary, r *vhlib.Rng) {
 					a, b = refAgain[qi], layAgain[qi]
 				}
 				cls := "e2e_" + q.Family + "_layout_dependent"
-				if q.Known != "" && a.Err == "" && b.Err == "" {
+				if q.Known != "" && ((a.Err == "" && b.Err == "") || q.Family == "sort_twopass") {
 					cls = q.Known
 				}
 				got, want := append(append([]string{}, b.Hits...), b.Meas...), append(append([]string{}, a.Hits...), a.Meas...)
